@@ -214,6 +214,20 @@ class FunctionTransformer(ast.NodeTransformer):
     def visit_FunctionDef(self, n):
         return n  # nested defs are left as written (their loops are not cut)
 
+    def visit_Assign(self, n):
+        """`a, *rest, z = value` (one starred target): the value is unpacked by `_vfw.unpack_star`, which also handles symbolic sequences
+        (first / last elements by index, the starred part as the slice in between; too few elements raise ValueError as in Python)"""
+        n.value = self.visit(n.value)
+        if len(n.targets) == 1 and isinstance(n.targets[0], (ast.Tuple, ast.List)):
+            elts = n.targets[0].elts
+            stars = [i for i, e in enumerate(elts) if isinstance(e, ast.Starred)]
+            if len(stars) == 1:
+                k = stars[0]
+                plain = ast.Tuple(elts=[e.value if isinstance(e, ast.Starred) else e for e in elts], ctx=ast.Store())
+                return ast.Assign(targets=[plain], value=_call("unpack_star", n.value, _const(k), _const(len(elts) - k - 1)))
+        n.targets = [self.visit(t) for t in n.targets]
+        return n
+
     def visit_AugAssign(self, n):
         """`name += value`: kept in place for Python lists extended by Python iterables; a list extended by a SYMBOLIC sequence becomes the
         concatenation (the local name is rebound - sound as long as the list is not aliased, which Engine F's provenance covers for locals)"""
